@@ -129,6 +129,32 @@ def size_faults(case, lines, L, rnd, tier):
     return out
 
 
+def pad_faults(case, lines, L, rnd, tier):
+    """k junk bytes inserted at the end of a sized region, with that size field and every enclosing one increased by k: all sizes
+    stay mutually consistent, only the region holds more bytes than its layout uses (seed C02f: the session loop swallowed the
+    overrun of its own region in strict mode and accepted 1-3 surplus bytes after the last session)"""
+    out = []
+    pos = msggen.size_field_positions(lines, L)
+    regs = []
+    for off, w, val, path in pos:
+        outer = path.count(".") == 1 and path.rsplit(".", 1)[-1] in ("commandSize", "responseSize")
+        regs.append((off, w, val, path, 0 if outer else off + w, val if outer else off + w + val))
+    for off, w, val, path, start, end in regs:
+        for k in ([1, 2, 3] if tier == "quick" else [1, 2, 3, 4, 7]):
+            data = bytearray(case.data[:end] + bytes(rnd.choice([0, 2, 0xFF]) for _ in range(k)) + case.data[end:])
+            ok = True
+            for off2, w2, val2, path2, s2, e2 in regs:
+                if s2 <= end <= e2 and off2 < end:
+                    if val2 + k >= 1 << (8 * w2):
+                        ok = False
+                        break
+                    data[off2:off2 + w2] = (val2 + k).to_bytes(w2, "big")
+            if ok:
+                out.append(Case(case.tname, case.cc, case.enc, bytes(data), "pad_fault", None,
+                                {"field": path, "offset": off, "width": w, "was": val, "now": val + k, "padding": k, "base": case}))
+    return out
+
+
 def value_faults(case, lines, L, rnd, tier, limit=None):
     """every constrained leaf set to values just outside / far outside its declared set (and to valid boundaries)"""
     out = []
